@@ -145,6 +145,10 @@ struct Shadow {
     /// reproduces every reading of the stall window bit for bit.
     sm: f64,
     dsm: f64,
+    /// recorded backwards seeks, and those among them recorded at `now <= prev_time` (no time has
+    /// passed since the last sample: the branch order of Estimator::record matters there)
+    rewinds: u64,
+    rewinds_same_instant: u64,
 }
 
 fn weight_of(secs: f64) -> f64 {
@@ -174,7 +178,7 @@ impl Table {
 
 impl Shadow {
     fn new(now: u64) -> Self {
-        Shadow { pos: 0, prev_steps: 0, prev_time: now, start_time: now, reset_time: now, cap: 10, lprev: 0, lstart: now, done: false, sm: 0.0, dsm: 0.0 }
+        Shadow { pos: 0, prev_steps: 0, prev_time: now, start_time: now, reset_time: now, cap: 10, lprev: 0, lstart: now, done: false, sm: 0.0, dsm: 0.0, rewinds: 0, rewinds_same_instant: 0 }
     }
     fn allow(&mut self, now: u64) -> bool {
         if now < self.lstart {
@@ -195,6 +199,10 @@ impl Shadow {
         let new = self.pos;
         if new <= self.prev_steps || now <= self.prev_time {
             if new < self.prev_steps {
+                self.rewinds += 1;
+                if now <= self.prev_time {
+                    self.rewinds_same_instant += 1;
+                }
                 self.prev_steps = new;
                 self.prev_time = now;
                 self.start_time = now;
@@ -326,6 +334,8 @@ struct Run {
     points: Vec<(usize, u64, u64, bool)>, // (op index, time, position after the op, op was a reset)
     recorded: u64,
     throttled: u64,
+    rewinds: u64,
+    rewinds_same_instant: u64,
 }
 
 fn observe(pb: &ProgressBar) -> Result<Obs, String> {
@@ -341,7 +351,7 @@ fn observe(pb: &ProgressBar) -> Result<Obs, String> {
 fn drive(len0: Option<u64>, t0: u64, ops: &[Op]) -> Run {
     set_auto_step_ns(0);
     set_clock_ns(t0);
-    let mut run = Run { q: vec![], tbl: vec![], panic: None, points: vec![], recorded: 0, throttled: 0 };
+    let mut run = Run { q: vec![], tbl: vec![], panic: None, points: vec![], recorded: 0, throttled: 0, rewinds: 0, rewinds_same_instant: 0 };
     let pb = match catch(|| ProgressBar::with_draw_target(len0, ProgressDrawTarget::hidden())) {
         Ok(pb) => pb,
         Err(e) => {
@@ -425,6 +435,8 @@ fn drive(len0: Option<u64>, t0: u64, ops: &[Op]) -> Run {
     // the bar may be poisoned by a panic under its mutex: dropping it must not take the harness down
     let _ = catch(move || drop(pb));
     run.tbl = tbl.order;
+    run.rewinds = sh.rewinds;
+    run.rewinds_same_instant = sh.rewinds_same_instant;
     run
 }
 
@@ -847,6 +859,12 @@ fn emit(s: &mut Session, st: &mut Stats, kind: &str, len0: Option<u64>, t0: u64,
     }
     s.count_n("updates:recorded", run.recorded);
     s.count_n("updates:throttled_by_limiter", run.throttled);
+    if run.rewinds > 0 {
+        s.count_n(&format!("rewind:recorded({kind})"), run.rewinds);
+    }
+    if run.rewinds_same_instant > 0 {
+        s.count_n(&format!("rewind:recorded-at-now==prev_time({kind})"), run.rewinds_same_instant);
+    }
     let nq = run.q.iter().filter(|q| q.explicit).count();
     s.count_n("queries", nq as u64);
     for q in run.q.iter().filter(|q| q.explicit) {
